@@ -85,7 +85,7 @@ class FaultPeer(transports.Peer):
         items = self._on_write(conn, data)
         if self.framing == 'binary':
             for it in items:
-                if it[0] != 'close' and any(b in (0x7B, 0x7D) for b in it[1][1:-1]):
+                if it[0] != 'close' and len(it[1]) > 6 and refframe.binary_fragile(it[1]):
                     self.delim_seen = True
         return items
 
@@ -101,7 +101,7 @@ class FaultPeer(transports.Peer):
         self.last_behaviour = beh[0]
         good = transports.reply_pdu(rpdu, self.seq)
         frame = refframe.build(self.framing, uid, good, tid, 0)
-        if self.framing == 'binary' and any(b in (0x7B, 0x7D) for b in frame[1:-1]):
+        if self.framing == 'binary' and refframe.binary_fragile(frame):
             self.delim_seen = True
         if beh[0] == 'reply':
             self.expected[self.seq] = good
@@ -167,7 +167,7 @@ def run_case(case):
     fpdu = specpdu.encode(*case['follow'])
     if framing == 'binary':
         for p_ in (rpdu, fpdu):
-            if any(b in (0x7B, 0x7D) for b in refframe.build('binary', case['unit'], p_)[1:-1]):
+            if refframe.binary_fragile(refframe.build('binary', case['unit'], p_)):
                 return Outcome([], labels + ['excluded-binary-delimiter'], False)
     peer = FaultPeer(framing, case['script'], 1.0)
     nt = any(b[0] not in ('reply',) for b in case['script'])
